@@ -637,10 +637,10 @@ impl<B: AsRef<[usize]>> Iterator for OnesIterator<'_, B> {
     fn next(&mut self) -> Option<Self::Item> {
         // find the next word with ones
         while self.word == 0 {
-            self.word_idx += 1;
-            if self.word_idx == self.bits.as_ref().len() {
+            if self.word_idx + 1 >= self.bits.as_ref().len() {
                 return None;
             }
+            self.word_idx += 1;
             self.word = unsafe { *self.bits.as_ref().get_unchecked(self.word_idx) };
         }
         // find the lowest bit set index in the word
@@ -689,10 +689,10 @@ impl<B: AsRef<[usize]>> Iterator for ZerosIterator<'_, B> {
     fn next(&mut self) -> Option<Self::Item> {
         // find the next flipped word with zeros
         while self.word == 0 {
-            self.word_idx += 1;
-            if self.word_idx == self.bits.as_ref().len() {
+            if self.word_idx + 1 >= self.bits.as_ref().len() {
                 return None;
             }
+            self.word_idx += 1;
             self.word = unsafe { !*self.bits.as_ref().get_unchecked(self.word_idx) };
         }
         // find the lowest zero bit index in the word
